@@ -12,7 +12,7 @@ V=/tmp/$name-verif
 if [ "$2" = "--rm" ]; then rm -rf "$R" "$V"; echo removed; exit 0; fi
 rm -rf "$R" "$V"
 mkdir -p "$R" "$V"
-rsync -a --exclude target --exclude .git /repo/ "$R"/
-rsync -a --exclude .cache --exclude .git --exclude evidence/replays /verif/ "$V"/
+rsync -a --exclude target --exclude .git /repo/ "$R"/ || [ $? -eq 24 ]
+rsync -a --exclude .cache --exclude .git --exclude evidence/replays /verif/ "$V"/ || [ $? -eq 24 ]
 sed -i "s#path = \"/repo\"#path = \"$R\"#" "$V/harness/Cargo.toml"
 echo "cd $V && NV_REPO=$R ./check <ID> --tier quick     # edit $R/src/... first; remove with: $0 $name --rm"
